@@ -20,6 +20,19 @@ def run(tier, seed, pid=PID, flavour='plain', n=None, maxpop=2000):
         c['maxpop'] = maxpop if rnd.random() < 0.08 else rnd.choice([70, 130, 200])
         c['mode'] = rnd.choice('np')
         cases.append(c)
+    # refill-boundary families: duplicates or backward steps that only show when they straddle two cache loads
+    def fam(k, ds, rt, tz=None):
+        return {'uid': 'f%d' % k, 'ds': rrgen.inst(ds), 'tz': bool(tz), 'rtext': rt, 'count': 0, 'until': [], 'ics': rrgen.event_ics('f%d' % k, ds, [rt], tzid=tz), 'maxpop': 2000, 'mode': 'p'}
+    nf = 0
+    for zn, (mo, dy) in (('Europe/Berlin', (3, 20)), ('America/New_York', (3, 1)), ('Australia/Sydney', (9, 25)), ('Pacific/Chatham', (9, 18)), ('Europe/London', (3, 20))):
+        for _ in range(40 if tier == 'thorough' else 8):
+            y = rnd.choice([2019, 2020, 2021, 2024, 2031]); h = rnd.randint(0, 23); mi = rnd.choice([0, 10, 20, 40, 59])
+            rt = rnd.choice(['FREQ=HOURLY', 'FREQ=MINUTELY;INTERVAL=20', 'FREQ=MINUTELY;INTERVAL=7', 'FREQ=HOURLY;BYMINUTE=0,30', 'FREQ=MINUTELY;INTERVAL=15;BYHOUR=0,1,2,3,4'])
+            cases.append(fam(nf, (y, mo, min(dy + rnd.randint(0, 6), rrgen.dim(y, mo)), h, mi, 0), rt, zn)); nf += 1
+    for _ in range(120 if tier == 'thorough' else 24):
+        y = rnd.choice([2018, 2020, 2023, 2026]); m = rnd.randint(1, 12)
+        rt = 'FREQ=MONTHLY;BYMONTHDAY=%s;SHIFT=%s' % (rnd.choice(['-1,1', '1,2,-1', '-1,1,15', '30,31,1']), rnd.choice(['1B', '0B', '-0B', '2B', '-1B', '1B+']))
+        cases.append(fam(nf, (y, m, 1), rt)); nf += 1
     nsl = vlib.NCPU; per = -(-len(cases) // nsl)
     env_asan = flavour == 'asan'
     if env_asan:
